@@ -8,7 +8,7 @@ from ..runner import Part, Violation
 ID = "C12"
 RULE = ("part 'laws': links over all orientation pairs, distinct / self / hairpin, overlap '*' or a CIGAR over "
         "{M,I,D,P,=,X,H}, with tags: complement involution, reference/query length exchange, is_complement / "
-        "is_eql / is_same / is_compatible symmetric and repeatable with the receiver textually unchanged, "
+        "is_eql / is_same / is_compatible symmetric and repeatable, equal hash of a link and its complement with the receiver textually unchanged, "
         "complement text equal to the model's; in half of the cases one operation of the CIGAR of the same Line object "
         "is then edited in place (length and code; also the CIGAR of the line complement() returned) and all laws are "
         "evaluated again for the edited link; part 'graph': a Gfa holding such links: adding the complement "
@@ -90,6 +90,9 @@ def _laws(case, p, tags, vlevel, l):
             got = (lo.length_on_reference(), lo.length_on_query(), co.length_on_reference(), co.length_on_query())
             if got != (ref, qry, qry, ref):
                 raise Violation("lengths", "%r: (ref,qry,c.ref,c.qry)=%s expected %s" % (text, got, (ref, qry, qry, ref)))
+        # documented with Link.__hash__: a link and its complement have the same hash
+        if hash(l) != hash(c) or hash(l) != hash(l):
+            raise Violation("hash", "hash of %r and of its complement differ (or are not repeatable)" % text)
         for rep in range(3):
             if not l.is_complement(c) or not c.is_complement(l):
                 raise Violation("is_complement", "is_complement false (repetition %d) for %r / %r" % (rep, text, str(c)))
